@@ -23,7 +23,10 @@ const memRule = "one case = one plan in one of three configurations: (arena) 1-2
 
 const symRule = "one case = one fresh load of the symbol tables (ResetForVerif) followed by lookups of present functions (every uniquely named function of the binary is covered by consecutive 100-name blocks across seeds), zoo variables, absent and near-miss names, from 1-4 tasks racing into first use under the scheduler; in 70% of the cases exactly one read of the executable fails through the reader seam (EIO, truncation, zero-filled data) at an enumerated call index 0..47; non-trivial = a fault fired or a context switch occurred; distinct = hash of (names, context-switch sequence, fired fault)"
 
+const originRule = "one case = one history over 1-3 Go zoo targets mocked with an origin-calling callback (apply, re-apply, cancel, GC events) whose calls are issued on fresh goroutines below a filler recursion of seeded depth 1..500 frames x 4 fine offsets (every 40th seed sweeps all depths on one target), interleaved with operations on the 11-shape assembly zoo (patch.PtrTrampoline with a placeholder linked before or after the shape, relocated code executed for 5 inputs, refusals must change nothing); non-trivial = every case executes relocated code or a refusal; distinct = hash of (operations, fired events)"
+
 func init() {
+	props["C03"] = propCfg{World: "origin", Level: "exploration", Quick: 1600, Thorough: 100000, Chunk: 40, Rule: originRule, Assume: commonAssume}
 	props["C10"] = propCfg{World: "sym", Level: "fault_enumeration", Quick: 1500, Thorough: 60000, RaceQ: 200, RaceT: 6000, Chunk: 25, Extra: map[string]int{"pie": 150, "strip": 150}, Rule: symRule, Assume: commonAssume}
 	props["C14"] = propCfg{World: "mem", Level: "exploration", Quick: 2500, Thorough: 200000, Chunk: 50, Rule: memRule, Assume: commonAssume}
 	props["C20"] = propCfg{World: "space", Level: "fault_enumeration", Quick: 1500, Thorough: 150000, RaceQ: 300, RaceT: 20000, PerProc: true, Rule: spaceRule, Assume: commonAssume}
